@@ -67,15 +67,15 @@ type killedGor struct{}
 func (ex *Exec) gmodeOn() bool { return ex.sched != nil }
 
 type scheduler struct {
-	gors        []*Gor
-	cur         *Gor
-	preemptLeft int
-	timers      []*vtimer
-	now         *Term
-	asyncTimers bool
-	dead        bool
-	abort       *pathEnd
-	abortPanic  interface{}
+	gors         []*Gor
+	cur          *Gor
+	preemptLeft  int
+	timers       []*vtimer
+	now          *Term
+	asyncTimers  bool
+	dead         bool
+	abort        *pathEnd
+	abortPanic   interface{}
 	quiesceWait  bool
 	quiesceUntil *Term
 	switches     int
@@ -626,10 +626,11 @@ func (ex *Exec) arrWritten(a *ArrObj, seen, skip map[interface{}]bool) (bool, st
 // ---------- lock monitor (C14) ----------
 
 type guardRule struct {
-	name string
-	kind string // mutex | rwmutex | nowrite | atomic
-	lock *Value // mutex cell that must be held
-	rw   bool   // RWMutex: reads need R or W, writes need W
+	name  string
+	kind  string // mutex | rwmutex | nowrite | atomic
+	lock  *Value // mutex cell that must be held
+	rw    bool   // RWMutex: reads need R or W, writes need W
+	owner string // confined: name of the function whose dynamic extent may access it
 }
 
 type lockMonitor struct {
@@ -664,6 +665,13 @@ func (ex *Exec) checkGuard(r *guardRule, write bool, site ssa.Instruction) {
 		ok = !write
 	case "atomic":
 		ok = false
+	case "confined":
+		for f := ex.cur; f != nil; f = f.caller {
+			if f.fn != nil && f.fn.Name() == r.owner {
+				ok = true
+				break
+			}
+		}
 	}
 	if site != nil && site.Parent() != nil && strings.HasPrefix(site.Parent().Name(), "vf") {
 		return // the harness's own reads are not part of the program
@@ -690,5 +698,9 @@ func (ex *Exec) checkGuard(r *guardRule, write bool, site ssa.Instruction) {
 		return
 	}
 	ex.monitor.reports[label] = true
-	ex.violation(label, "access to "+r.name+" without its lock", nil)
+	msg := "access to " + r.name + " without its lock"
+	if r.kind == "confined" {
+		msg = "access to " + r.name + " from outside " + r.owner
+	}
+	ex.violation(label, msg, nil)
 }
